@@ -424,7 +424,8 @@ impl WorkerTree {
     fn insert_source(&mut self, path: PathBuf, output: Option<PathBuf>) {
         if let Some(output) = output.as_ref() {
             // the source is back: its output must not be deleted by the next clean up
-            self.remove_files.retain(|remove_path| remove_path != output);
+            self.remove_files
+                .retain(|remove_path| remove_path != output);
         }
         let node_index = self.graph.add_node(if let Some(output) = output {
             WorkItem::new(path.clone(), output)
